@@ -99,6 +99,18 @@ def same_result(impl_ln: str, model_ln: str) -> str:
         # is alpha-renamed at all: compare modulo the names of *all* lambda parameters
         if bridge.to_sx(alpha_norm(a, True)) == bridge.to_sx(alpha_norm(b, True)):
             return "alpha-all"
+        # A re-visit of a node that several uses of a definition share simplifies it for all of them in the implementation
+        # (in-place edit), for the visited use only in the functional model: the code's output is then the model's output
+        # with some sub-terms simplified once more.  Such outputs are identified by simplifying both once more (with the
+        # implementation) - they must then be equal modulo parameter names.
+        sa, ra, _ = impl(a)
+        sb, rb, _ = impl(b)
+        if sa == "ok" and sb == "ok":
+            try:
+                if bridge.to_sx(alpha_norm(ra, True)) == bridge.to_sx(alpha_norm(rb, True)):
+                    return "resimplified"
+            except RecursionError:
+                pass
     return "differ"
 
 
